@@ -770,6 +770,8 @@ func specInt64Of(r Reader) *int64        { v, _ := r.Int64Value(); return v }
 func specInt64Err(r Reader) error        { _, e := r.Int64Value(); return e }
 func specBigOf(r Reader) *big.Int        { v, _ := r.BigIntValue(); return v }
 func specBigErr(r Reader) error          { _, e := r.BigIntValue(); return e }
+func specIntOf(r Reader) *int             { v, _ := r.IntValue(); return v }
+func specIntSizeOf(r Reader) IntSize      { v, _ := r.IntSize(); return v }
 func specBoolOf(r Reader) *bool          { v, _ := r.BoolValue(); return v }
 func specFloatOf(r Reader) *float64      { v, _ := r.FloatValue(); return v }
 func specStringOf(r Reader) *string      { v, _ := r.StringValue(); return v }
